@@ -137,7 +137,7 @@ Lemma fail_last_ok_model o ce tbl fuel s n s' oc evs :
   fail_last_ok (cancelled s) evs (pair_of_outcome oc) = true.
 Proof.
   intros Hce H L. destruct oc as [a|e]; cbn; auto.
-  pose proof (run_ext _ _ Hce _ _ _ _ _ _ H) as [evs' [L' C]].
+  pose proof (run_ext _ _ Hce _ _ _ _ _ _ H) as [evs' [L' [C _]]].
   assert (evs' = evs) by (apply (app_inv_head (log s)); now rewrite <- L, <- L'). subst evs'.
   destruct (run_faillast _ _ Hce _ _ _ _ _ _ H) as [[Hr|Hr]|[[Hk Hc]|[pre [c [u [cn [L2 [W [S _]]]]]]]]].
   - unfold class_of. now rewrite Hr.
@@ -154,7 +154,7 @@ Proof.
   induction k as [|k IH]; intros s; cbn [model_runs eobs_of_model spec_fail_last_runs]; auto.
   destruct (model_run sc s) as [[s' oc]|] eqn:E; cbn [eobs_of_model spec_fail_last_runs]; auto.
   unfold model_run in E.
-  pose proof (run_ext _ _ conc_unused_ext _ _ _ _ _ _ E) as [evs [L C]].
+  pose proof (run_ext _ _ conc_unused_ext _ _ _ _ _ _ E) as [evs [L [C _]]].
   rewrite L, skipn_app_exact.
   rewrite (fail_last_ok_model _ _ _ _ _ _ _ _ _ conc_unused_ext E L). cbn [andb].
   rewrite <- C. apply IH.
@@ -172,3 +172,54 @@ Proof.
   destruct (scen_full sc) eqn:Hf; auto. destruct (root_known sc) eqn:Hr; auto. cbn [andb].
   unfold model_obs. change (es_precancel sc) with (cancelled (init_ms sc)). now apply spec_C05_model.
 Qed.
+
+(* ------------------------------------------------------------ routing (C03, C10) *)
+From Flyt Require Import Flatten FlattenProofs SpecRoute.
+
+Lemma conc_unused_nt : forall c k st n s items s' rs,
+    conc_unused c k st n s items = (s', rs) -> ntext s s'.
+Proof. unfold conc_unused. intros. inv H. apply ntext_refl. Qed.
+
+Lemma wf_events_stores_ok evs : wf_events evs -> stores_ok evs = true.
+Proof.
+  unfold wf_events, stores_ok. induction 1 as [|e evs He _ IH]; cbn; auto.
+  rewrite IH, andb_true_r. unfold store_arg_ok. destruct (ev_call e); cbn in He; subst; auto.
+Qed.
+
+Lemma scen_vis_table sc :
+  scen_vis sc = true -> forall n d, table_of (es_nodes sc) n = Some d -> vis_def d = true.
+Proof.
+  unfold scen_vis. rewrite forallb_forall. intros H n d Hd.
+  apply table_of_in in Hd. apply (H (n, d)). exact Hd.
+Qed.
+
+Lemma spec_route_model sc :
+  scen_vis sc = true ->
+  forall k s, spec_route_runs (table_of (es_nodes sc)) (es_root sc) (cancelled s)
+                              (eobs_of_model (model_runs sc k s)) = true.
+Proof.
+  intros Hvis. induction k as [|k IH]; intros s; cbn [model_runs eobs_of_model spec_route_runs]; auto.
+  destruct (model_run sc s) as [[s' oc]|] eqn:E; cbn [eobs_of_model spec_route_runs]; auto.
+  unfold model_run in E.
+  rewrite (outcome_pair_roundtrip _ _ _ _ _ _ _ _ E).
+  pose proof (run_ext _ _ conc_unused_ext _ _ _ _ _ _ E) as [evs [L [C W]]].
+  rewrite L, skipn_app_exact. rewrite (wf_events_stores_ok _ W). cbn [andb].
+  rewrite <- C. rewrite IH, andb_true_r.
+  destruct (cancelled s') eqn:Hc'; auto.
+  destruct (run_sim _ _ conc_unused_ext conc_unused_nt _ (scen_vis_table _ Hvis) _ _ _ _ _ E Hc'
+              FUEL FUEL [] (le_n _) (le_S _ _ (le_n _))) as [evs' [L' R]].
+  assert (evs' = evs) by (apply (app_inv_head (log s)); now rewrite <- L, <- L'). subst evs'.
+  unfold route_ok. destruct oc as [a|e]; [|exact R].
+  rewrite R. cbn. apply Nat.eqb_refl.
+Qed.
+
+Lemma spec_route_model_lemma sc : spec_route sc (eobs_of_model (model_obs sc)) = true.
+Proof.
+  unfold spec_route. destruct (scen_vis sc) eqn:Hv; auto.
+  unfold model_obs. change (es_precancel sc) with (cancelled (init_ms sc)). now apply spec_route_model.
+Qed.
+
+Lemma spec_C03_model_lemma sc : spec_C03 sc (eobs_of_model (model_obs sc)) = true.
+Proof. unfold spec_C03. now rewrite spec_route_model_lemma, spec_lifecycle_model. Qed.
+Lemma spec_C10_model_lemma sc : spec_C10 sc (eobs_of_model (model_obs sc)) = true.
+Proof. unfold spec_C10. now rewrite spec_route_model_lemma, spec_lifecycle_model. Qed.
